@@ -305,6 +305,36 @@ def gen_strains(rng, n):
 # ---------------------------------------------------------------------------
 # per-sample oracle + goal text
 
+def rtd_near_r0(run, rng, nparams):
+    """Voltages at and within 20 ulp of I * R0 (0 degC): the measured resistance is then at most a few ulp away
+    from R0 on either side of the quadratic / quartic branch point; the scaling must return (nearly) 0 degC, not
+    raise (defect D23: the quartic's root near zero is found as 0.0 or a tiny positive number)."""
+    import numpy as np
+    for _ in range(nparams):
+        p = gen_rtd_params(rng)
+        v0 = rtd_forward(p, 0.0)
+        vs = []
+        for k in range(-20, 21):
+            v = v0
+            for _ in range(abs(k)):
+                v = float(np.nextafter(v, np.inf if k > 0 else -np.inf))
+            vs.append(v)
+        case = {"kind": "rtd", "params": p, "xs": [0.0], "near_r0": True}
+        run.count("rtd_near_r0_voltages", len(vs))
+        run.cov["evaluations"] += len(vs)
+        try:
+            sc = make_scaling("rtd", p)
+            ys = [float(sc.scale(np.array([v], dtype=np.float64))[0]) for v in vs]
+        except Exception as e:     # noqa: BLE001
+            run.violation("rtd-raises", "rtd scaling raised %r for a voltage within 20 ulp of I*R0 (0 degC), params %r"
+                          % (e, p), case, actual=repr(e))
+            continue
+        bad = [(v, y) for v, y in zip(vs, ys) if not (math.isfinite(y) and abs(y) <= direct_tol("rtd", 0.0))]
+        if bad:
+            run.violation("rtd-inverse", "rtd scaling near 0 degC: voltage %r -> %r (params %r)" % (bad[0][0], bad[0][1], p),
+                          case, expected=0.0, actual=bad[0][1])
+
+
 def direct_tol(kind, x):
     if kind == "strain":
         return 1e-6 * abs(x) + 1e-12
@@ -759,6 +789,7 @@ def main():
                           "lead": 100.0, "cfg": cfg})
     rtd = [(p, gen_rtd_temps(rng, per_set)) for p, _ in rtd]
     run_sensor(run, "rtd", rtd, "rtd_samples", collect)
+    rtd_near_r0(run, rng, run.pick(60, 800))
     th = [(gen_thermistor_params(rng), gen_thermistor_temps(rng, per_set)) for _ in range(n_sets)]
     run_sensor(run, "thermistor", th, "thermistor_samples", collect)
     n_strain = run.pick(8, 80)
